@@ -491,7 +491,7 @@ func TestVerif_C11_policy(t *testing.T) {
 		line := line0 + " " + c11EncReq(hreq) + " " + strings.Join(encVia, ";") + " " +
 			c11EncHeaders(rh) + " " + c11EncHeaders(vh) + " " + verifh.HexList(probes)
 		ans := c11DecisionName[dec] + " " + c11ShowProbes(func(k string) []string { return hreq.Header.Values(k) }, probes)
-		if class == "" && aliasPs != nil && ans == aliasAns {
+		if aliasPs != nil && ans == aliasAns { // takes precedence: the list that was enforced is not ps at all
 			class = "policy-arg-aliased"
 			s.Count("args:answers-like-current-slice-content")
 		}
